@@ -94,7 +94,8 @@ def resolve_faults(ctx):
     rng = ctx.rng('resolve-faults')
     for _ in range(ctx.budget(200, 4000)):
         c = gen_mol.cut_case(rng, nmax=8)
-        kind = rng.choice(['missing-fragment', 'missing-fragment-zero-edge', 'atom-two-eq', 'atom-nonnumeric', 'atom-surplus'])
+        kind = rng.choice(['missing-fragment', 'missing-fragment-zero-edge', 'missing-fragment-named-like-virtual',
+                           'missing-fragment-ring-bond', 'atom-two-eq', 'atom-nonnumeric', 'atom-surplus'])
         s = c['s']
         base, frags = s.split('}.', 1)
         if kind == 'missing-fragment':
@@ -104,6 +105,43 @@ def resolve_faults(ctx):
             victim = rng.choice(names)
             # the node keeps its bonds (order >= 1), only its name has no definition any more
             bad = base.replace('[#%s]' % victim, '[#NOFRAG]', 1) + '}.' + frags
+            want = 'syntax'
+        elif kind == 'missing-fragment-named-like-virtual':
+            # a legitimate virtual node [#V] (zero-order edges only) comes first; a later node of the SAME name is bonded
+            names = re.findall(r'\[#(F\d+)\]', base)
+            if len(names) < 2 or re.search(r'\|\d+$', base):
+                continue
+            victim = rng.choice(names[1:])
+            body = base[1:]
+            k = body.find(']') + 1
+            j = k
+            while j < len(body) and (body[j].isdigit() or body[j] in '%' or
+                                      (body[j] in '.-=#$' and j + 1 < len(body) and (body[j + 1].isdigit() or body[j + 1] == '%'))):
+                j += 1
+            if j < len(body) and body[j] == '|':
+                continue
+            with_virtual = (body[:j] + '.([#V])' + body[j:]) if rng.random() < 0.5 else ('[#V].' + body)
+            if with_virtual.count('[#%s]' % victim) < 1:
+                continue
+            idx = with_virtual.rfind('[#%s]' % victim)
+            bad = '{' + with_virtual[:idx] + '[#V]' + with_virtual[idx + len(victim) + 3:] + '}.' + frags
+            want = 'syntax'
+        elif kind == 'missing-fragment-ring-bond':
+            # the fragment-less node hangs on a zero-order chain bond, but closes a ring bond of order >= 1: not virtual
+            names = re.findall(r'\[#(F\d+)\]', base)
+            if len(names) < 1 or re.search(r'[9%|]', base):
+                continue
+            other = rng.choice(names)
+            sym = rng.choice(['', '', '=', '-'])
+            # '[#F..]9' … '.[#NOFRAG]9' : the marker is opened at a real node (with or without a bond symbol)
+            bad = base.replace('[#%s]' % other, '[#%s]%s9' % (other, sym), 1) + '.[#NOFRAG]9' + '}.' + frags
+            toks = list(re.finditer(r'\[#F\d+\]', base))
+            if rng.random() < 0.6 and len(toks) >= 2 and not re.search(r'\d', re.sub(r'\[#F\d+\]', '', base)):
+                # or opened by the fragment-less node itself, directly behind its zero bond, and closed by a later real
+                # node:  '[#Fi].([#NOFRAG]9) … [#Fj]9'
+                i = rng.randrange(len(toks) - 1)
+                j = rng.randrange(i + 1, len(toks))
+                bad = base[:toks[i].end()] + '.([#NOFRAG]9)' + base[toks[i].end():toks[j].end()] + '9' + base[toks[j].end():] + '}.' + frags
             want = 'syntax'
         elif kind == 'missing-fragment-zero-edge':
             # the fragment-less node has real bonds and, in addition, a zero-order ring bond to an extra unit
